@@ -417,6 +417,94 @@ def f_zero_neighbours(ck, F):
         ck.violation('F', 'F : closure : zero vectors for intra / not-coded', where_of(b), 'motion_vectors is not (zero-initialised per macroblock, written only for inter macroblocks, pushed once): inits %d writes %d pushes %d' % (len(inits), len(writes), len(ps)))
 
 
+def g_mv_decode(ck, F):
+    ck.rule('M', 'mv_decode reconstructs x from (predictor.x, differential.x) and y from (predictor.y, differential.y), in that order; the conversions between MotionVector and (x, y) keep '
+                 'the order; vector k of a macroblock is mv_decode(picture, options, predict_candidate(.., k), MVD_k) with MVD_1 = MVD (zero if absent), MVD_2..4 = the additional '
+                 'differentials in order; without four vectors, vectors 2..4 are copies of vector 1')
+    # mv_decode itself
+    b = F.body(MVP + 'mv_decode')
+    e = expr_of(F, b, {'o': 'copy', 'p': {'l': 0, 'proj': []}})
+    def hd(comp, flag):
+        return ('callp', 'mvd_pred::halfpel_decode', ('param', 1, ()), ('param', 2, ()), ('fld', ('callp', '::into', ('param', 3, ())), (comp,)),
+                ('fld', ('callp', '::into', ('param', 4, ())), (comp,)), ('c', flag))
+    want = ('callp', '::into', ('agg', 'tuple', hd(0, 1), hd(1, 0)))
+    if ematch(want, e) is not None: ck.ok('M', 'mv_decode = (halfpel_decode(.., p.x, d.x, true), halfpel_decode(.., p.y, d.y, false))', where_of(b))
+    else: ck.violation('M', 'M : mv_decode : pairing', where_of(b), 'mv_decode computes %s' % expr_str(e, b.get('debug', {}))[:400])
+    for n, pat, txt in (('h263_rs::<(types::HalfPel, types::HalfPel) as std::convert::From<types::MotionVector>>::from', ('agg', 'tuple', ('param', 1, (0,)), ('param', 1, (1,))), '(v.0, v.1)'),
+                        ('h263_rs::<types::MotionVector as std::convert::From<(types::HalfPel, types::HalfPel)>>::from', ('agg', 'MotionVector', ('param', 1, (0,)), ('param', 1, (1,))), 'MotionVector(t.0, t.1)')):
+        try:
+            bb_ = F.body(n)
+        except Exception as ex:
+            ck.violation('M', 'M : conversion missing : %s' % txt, None, 'conversion %s not found' % n); continue
+        e2 = expr_of(F, bb_, {'o': 'copy', 'p': {'l': 0, 'proj': []}})
+        if ematch(pat, e2) is not None: ck.ok('M', 'conversion %s keeps the component order' % txt, where_of(bb_))
+        else: ck.violation('M', 'M : conversion : %s' % txt, where_of(bb_), 'the conversion returns %s, expected %s' % (expr_str(e2, bb_.get('debug', {})), txt))
+    # vector addition (the sum of the four luma vectors that the chroma vector is derived from) is component-wise
+    for n, pat, txt in (('h263_rs::<types::MotionVector as std::ops::Add>::add',
+                         ('agg', 'MotionVector', ('callp', 'HalfPel as std::ops::Add>::add', ('param', 1, (0,)), ('param', 2, (0,))), ('callp', 'HalfPel as std::ops::Add>::add', ('param', 1, (1,)), ('param', 2, (1,)))),
+                         'MotionVector(a.x + b.x, a.y + b.y)'),
+                        ('h263_rs::<types::HalfPel as std::ops::Add>::add', ('agg', 'HalfPel', ('callp', '::saturating_add', ('param', 1, (0,)), ('param', 2, (0,)))), 'HalfPel(a sat+ b)')):
+        try: bb_ = F.body(n)
+        except Exception: ck.violation('M', 'M : addition missing : %s' % txt, None, '%s not found' % n); continue
+        e2 = expr_of(F, bb_, {'o': 'copy', 'p': {'l': 0, 'proj': []}})
+        if ematch(pat, e2) is not None: ck.ok('M', 'addition %s' % txt, where_of(bb_))
+        else: ck.violation('M', 'M : addition : %s' % txt, where_of(bb_), 'the addition returns %s, expected %s' % (expr_str(e2, bb_.get('debug', {})), txt))
+    # the writes of the per-macroblock vector array
+    b = F.body('h263_rs::decoder::state::H263State::decode_next_picture::{closure#0}'); g = cfg_of(b)
+    names = {v: int(k) for k, v in b.get('debug', {}).items()}
+    mv = names.get('motion_vectors')
+    if mv is None:
+        ck.unanalysable('closure anchors (M)', 'local motion_vectors not found'); return
+    coded = [v for v in F.adt(T + 'Macroblock')['variants'] if v['name'] == 'Coded']
+    fl = [f.get('name') for f in coded[0].get('fields', [])] if coded else []
+    if 'motion_vector' not in fl or 'addl_motion_vectors' not in fl:
+        ck.unanalysable('Macroblock::Coded fields', 'motion_vector / addl_motion_vectors not found'); return
+    f_mv, f_addl, v_coded = fl.index('motion_vector'), fl.index('addl_motion_vectors'), coded[0]['idx']
+    decoded = {}; copies = {}; bad = []; first = None
+    for bb in sorted(g.reach):
+        for s_ in g.blocks[bb]['stmts']:
+            if s_['s'] != 'assign' or s_['lhs']['l'] != mv or not s_['lhs']['proj']: continue
+            pr = s_['lhs']['proj'][0]
+            k = expr_of(F, b, {'o': 'copy', 'p': {'l': pr['l'], 'proj': []}}) if pr.get('p') == 'index' else (('c', pr.get('off')) if pr.get('p') == 'cindex' else None)
+            if not k or k[0] != 'c': bad.append('a write at a non-constant index (line %s)' % s_.get('span', {}).get('line')); continue
+            k = k[1]
+            e = _expr_rv(F, b, s_['rv'], 0, {})
+            if e[0] == 'call' and e[1].endswith('mvd_pred::mv_decode') and len(e) == 6:
+                pc = e[4]
+                if not (pc[0] == 'call' and pc[1].endswith('mvd_pred::predict_candidate') and pc[-1] == ('c', k)):
+                    bad.append('vector %d is decoded with the predictor %s' % (k + 1, expr_str(pc[-1] if pc[0] == 'call' else pc, b.get('debug', {}))[:80]))
+                d = e[5]
+                if k == 0:
+                    okd = d[0] == 'call' and d[1].endswith('::unwrap_or_else') and _mb_field(d[2], v_coded, (f_mv,)) and 'MotionVector::zero' in repr(d[3])
+                else:
+                    okd = _mb_field(d, v_coded, (f_addl, ('as', 1), 0, k - 1))
+                if not okd: bad.append('vector %d is decoded from the differential %s' % (k + 1, expr_str(d, b.get('debug', {}))[-120:]))
+                if first is None: first = (e[2], e[3])
+                elif (e[2], e[3]) != first: bad.append('vector %d is decoded against a different picture / option set' % (k + 1))
+                decoded[k] = decoded.get(k, 0) + 1
+            elif e[0] == 'multi' and e[1] == mv and len(e) > 2 and tuple(e[2]) in ((('idx', ('c', 0)),), (('cidx', 0, False),)):
+                copies[k] = copies.get(k, 0) + 1
+            else:
+                bad.append('vector %d := %s' % (k + 1, expr_str(e, b.get('debug', {}))[:120]))
+    if decoded != {0: 1, 1: 1, 2: 1, 3: 1}: bad.append('mv_decode writes per vector: %s (expected one each for 1..4)' % {k + 1: v for k, v in sorted(decoded.items())})
+    if copies != {1: 1, 2: 1, 3: 1}: bad.append('copies of vector 1: %s (expected one each for vectors 2..4)' % {k + 1: v for k, v in sorted(copies.items())})
+    if bad: ck.violation('M', 'M : closure : vector k', where_of(b), '; '.join(bad[:5]))
+    else: ck.ok('M', 'vector k = mv_decode(picture, options, predict_candidate(.., k), MVD_k) for k = 1..4; vectors 2..4 = vector 1 without four vectors', where_of(b))
+
+
+def _mb_field(e, v_coded, tail):
+    """e is field `tail` of the Coded payload of the value returned by decode_macroblock (through `?`)"""
+    if e[0] != 'fld' or not (e[1][0] == 'call' and e[1][1].endswith('macroblock::decode_macroblock')): return False
+    pr = [x for x in e[2]]
+    # drop the `?` (Ok payload) and the downcast to Coded
+    core = []
+    for x in pr:
+        if isinstance(x, tuple) and x[0] == 'cidx': core.append(x[1])
+        else: core.append(x)
+    want = [('as', 0), 0, ('as', v_coded)] + list(tail)
+    return core == want
+
+
 def run(ck, F, tier):
     ck.explanation = ('C12 decided structurally: A the baseline reconstruction path of halfpel_decode has the decision structure in(m+p) ? m+p : invert(m)+p with the four '
                       'constants (if-conversion + comparison over the consistent truth assignments of its range tests); that this is reduction modulo 64 into [-32,31] for '
@@ -431,6 +519,7 @@ def run(ck, F, tier):
     d_candidates(ck, F)
     e_median(ck, F)
     f_zero_neighbours(ck, F)
+    g_mv_decode(ck, F)
     # which bits are the differentials: MVD x then y from Table 14 (or the UMV code with PLUSPTYPE), for the types Table 9 gives vectors to
     from . import mblayer
     from ..report import Scoped
